@@ -39,7 +39,7 @@ TRUSTED = ['hand-written model coq/Model/Subsample.v tied to biom/table.py:3034-
            "shuffle permutes",
            'UNBIASEDNESS is not proven: walk_counts shows the result is the occupancy vector of the drawn unit positions, so "each unit '
            'equally likely" is exactly the uniformity of numpy\'s choice/shuffle/multinomial (trusted); the thorough tier runs a '
-           'chi-square TEST of it (evidence/C12-stat.json), which is a test, not a proof',
+           'chi-square TEST of it (stats/C12-stat.json), which is a test, not a proof',
            'compiled kernels are the shipped .so (Cython absent); when _subsample.pyx differs from the pinned hash the harness runs '
            'the interpreted source instead (tools/decython.py); on the unchanged tree both are run on every case and must agree',
            'extraction (ExtrOcamlBasic only) + ocaml/driver_tail.ml, cross-checked against vm_compute on a sample']
@@ -259,7 +259,7 @@ def oracle(c, obs):
     if 'crash' in obs:
         return ['harness/implementation crashed: %s' % obs['crash']]
     if c['kind'] == 'stat':
-        return [] if obs.get('stat') else ['statistical test failed, see evidence/C12-stat.json']
+        return [] if obs.get('stat') else ['statistical test failed, see stats/C12-stat.json']
     fails = []
     spec = c['spec']
     want_recv = canon(T.norm_snap(T.spec_content(spec)))
@@ -405,7 +405,7 @@ def _run_stat(c):
     report['tests'].append({'mode': 'by_id', 'subsets': {'/'.join(k): cnt.get(k, 0) for k in keys}, 'chi2': round(x2, 2), 'bound': 14, 'pass': good})
     report['pass'] = ok
     os.makedirs(os.path.join(ROOT, 'evidence'), exist_ok=True)
-    json.dump(report, open(os.path.join(ROOT, 'evidence', 'C12-stat.json'), 'w'), indent=1)
+    json.dump(report, open(os.path.join(ROOT, 'stats', 'C12-stat.json'), 'w'), indent=1)
     print('C12 statistical test (a TEST, not part of the proof): %d seeds, %d chi-square comparisons, %s'
           % (len(seeds), len(report['tests']), 'all within bounds' if ok else 'FAILED'))
     return {'stat': ok}
